@@ -44,6 +44,20 @@ func errSourceCall(v ssa.Value) ssa.CallInstruction {
 
 // isSentinelCompare: cond is `x == pkg.Name` (load of a package-level var).
 func isSentinelCompare(cond ssa.Value, x ssa.Value) (string, bool) {
+	// errors.Is(err, Sentinel) (standard library or go-faster/errors) is the same test
+	if c, ok := cond.(*ssa.Call); ok && len(c.Call.Args) == 2 {
+		if pk, nm := calleePkgName(c); nm == "Is" && (pk == "errors" || pk == "github.com/go-faster/errors") {
+			a0 := c.Call.Args[0]
+			if a0 == x || stripTypeOnly(a0) == x {
+				if u, ok := stripTypeOnly(c.Call.Args[1]).(*ssa.UnOp); ok && u.Op == token.MUL {
+					if g, ok := u.X.(*ssa.Global); ok && g.Pkg != nil {
+						return g.Pkg.Pkg.Path() + "." + globalName(g), true
+					}
+				}
+			}
+		}
+		return "", false
+	}
 	b, ok := cond.(*ssa.BinOp)
 	if !ok || b.Op != token.EQL {
 		return "", false
@@ -296,6 +310,7 @@ func ruleDaemonLog(r *Run) {
 		}
 		return in
 	}
+	var pathEnds []*feEnd
 	before := func(a, b ssa.Instruction) bool {
 		if a == nil || b == nil {
 			return false
@@ -304,7 +319,42 @@ func ruleDaemonLog(r *Run) {
 			return instrDominates(a, b)
 		}
 		la, lb := lift(a, true), lift(b, false)
-		return la != nil && lb != nil && la != lb && instrDominates(la, lb)
+		if la != nil && lb != nil && la != lb && instrDominates(la, lb) {
+			return true
+		}
+		// second derivation, on paths through parseNext and its helpers: wherever b happens, a
+		// happened earlier on that path
+		ca, oka := a.(ssa.CallInstruction)
+		cb, okb := b.(ssa.CallInstruction)
+		if !oka || !okb {
+			return false
+		}
+		if pathEnds == nil {
+			w := &feWalker{Fn: pn, Inline: inlineHelpers(pn), MaxPath: 5000}
+			pathEnds = w.Run()
+			if w.Aborted {
+				return false
+			}
+		}
+		sawB := false
+		for _, e := range pathEnds {
+			sa, sb := -1, -1
+			for _, c := range e.State.calls {
+				if c.Call == ca && sa < 0 {
+					sa = c.Seq
+				}
+				if c.Call == cb && sb < 0 {
+					sb = c.Seq
+				}
+			}
+			if sb >= 0 {
+				sawB = true
+				if sa < 0 || sa > sb {
+					return false
+				}
+			}
+		}
+		return sawB
 	}
 	// retLeaves: a value obtained from a helper of the group is resolved to what the helper returns
 	var retLeaves func(v ssa.Value, depth int) []ssa.Value
@@ -707,6 +757,7 @@ func ruleDaemonLog(r *Run) {
 	oe := r.Ob("ERR-PROP", "dockerlog.(*streamIter).parseNext clean end", "(false, nil) is returned only when the header read hit EOF/ErrUnexpectedEOF; (true, nil) only after header, payload and line parsing all succeeded")
 	w := &feWalker{Fn: pn, Inline: inlineHelpers(pn)}
 	ebad := false
+	cleanSentinels := map[string]bool{}
 	for _, e := range w.Run() {
 		ret, ok := e.Term.(*ssa.Return)
 		if !ok || len(ret.Results) != 2 {
@@ -714,6 +765,21 @@ func ruleDaemonLog(r *Run) {
 		}
 		if isErr, known := endReturnsError(e); known && isErr {
 			continue
+		}
+		if isNilConst(e.Results[1].V) && e.Results[0].Known && !constant.BoolVal(e.Results[0].C) {
+			// a clean end: which end-of-stream conditions lead here
+			for _, f := range e.State.free {
+				if !f.Truth {
+					continue
+				}
+				for _, f2 := range e.State.free {
+					if x, nn, ok := nilCheck(f2.Cond); ok && nn == f2.Truth && errSourceCall(x) == ssa.CallInstruction(readFull) {
+						if sname, ok := isSentinelCompare(f.Cond, x); ok {
+							cleanSentinels[sname] = true
+						}
+					}
+				}
+			}
 		}
 		if !isNilConst(e.Results[1].V) {
 			ebad = true
@@ -750,8 +816,16 @@ func ruleDaemonLog(r *Run) {
 			oe.Fail(r.pos(ret.Pos()), "returns (false, nil) – a clean end of stream – on a path where the header read did not fail")
 		}
 	}
+	// a stream that stops between frames (io.EOF) or inside a header (io.ErrUnexpectedEOF) ends
+	// cleanly, as docker's own reader treats it: both conditions have a clean-end path
+	for _, sname := range []string{"io.EOF", "io.ErrUnexpectedEOF"} {
+		if !cleanSentinels[sname] {
+			ebad = true
+			oe.Fail(r.pos(pn.Pos()), "a header read that fails with %s does not end the stream cleanly (false, nil): a log cut at that point turns into an error", sname)
+		}
+	}
 	if !ebad {
-		oe.OK("clean end only from the header read; success only after all three steps").At(r.pos(pn.Pos()))
+		oe.OK("clean end only from the header read, for io.EOF and io.ErrUnexpectedEOF; success only after all three steps").At(r.pos(pn.Pos()))
 	}
 
 	// ---- ERR-CHAIN: Next stores the error, Err returns it ------------------
